@@ -98,9 +98,38 @@ func (r *Result) Note(format string, a ...any) { r.Notes = append(r.Notes, fmt.S
 // Model is a running `modelrun <name>` process: one case per line in, one
 // result per line out.
 type Model struct {
-	cmd *exec.Cmd
-	in  io.WriteCloser
-	out *bufio.Reader
+	cmd  *exec.Cmd
+	in   io.WriteCloser
+	out  *bufio.Reader
+	name string
+}
+
+// ErrModelTimeout is returned by AskT when the model did not answer in time; the model process has been replaced.
+var ErrModelTimeout = fmt.Errorf("model did not answer in time")
+
+// AskT is Ask with a time limit. On timeout the model process is killed and a fresh one takes its place, so the
+// next case is unaffected. (The limit guards the tooling: the extracted model is slow on very large data.)
+func (m *Model) AskT(sexp string, limit time.Duration) (string, error) {
+	type res struct {
+		s   string
+		err error
+	}
+	ch := make(chan res, 1)
+	go func() { s, err := m.Ask(sexp); ch <- res{s, err} }()
+	select {
+	case r := <-ch:
+		return r.s, r.err
+	case <-time.After(limit):
+		m.cmd.Process.Kill()
+		<-ch
+		m.cmd.Wait()
+		n, err := StartModel(m.name)
+		if err != nil {
+			return "", err
+		}
+		*m = *n
+		return "", ErrModelTimeout
+	}
 }
 
 func modelBin() string {
@@ -111,7 +140,10 @@ func modelBin() string {
 }
 
 func StartModel(name string) (*Model, error) {
-	cmd := exec.Command(modelBin(), name)
+	// address-space cap: a hostile case (exponentially growing strings are lists of code points in the model) must end in
+	// the driver's "model-out-of-memory" answer, not in an OOM kill of the whole check; the default 8 MB stack is kept on
+	// purpose: oversized cases overflow it quickly and are answered "model-stack-overflow" (both are counted as skipped)
+	cmd := exec.Command("/bin/sh", "-c", `ulimit -v 12000000 2>/dev/null; exec "$0" "$1"`, modelBin(), name)
 	in, err := cmd.StdinPipe()
 	if err != nil {
 		return nil, err
@@ -124,7 +156,7 @@ func StartModel(name string) (*Model, error) {
 	if err := cmd.Start(); err != nil {
 		return nil, err
 	}
-	return &Model{cmd: cmd, in: in, out: bufio.NewReaderSize(out, 1<<20)}, nil
+	return &Model{cmd: cmd, in: in, out: bufio.NewReaderSize(out, 1<<20), name: name}, nil
 }
 
 // Ask sends one S-expression and returns the model's answer line.
